@@ -853,6 +853,7 @@ func (ex *Exec) applyContract(st *State, con *Contract, sfn *ssa.Function, c *ss
 	if pk == "" {
 		pk = ex.g.pkgPath
 	}
+	ex.resetGhosts(st, con)
 	pre := st.clone()
 	env := &Env{g: g, ex: ex, vars: map[string]Val{}, st: pre, old: pre, pkgPath: pk, atCallSite: true}
 	for i, n := range names {
